@@ -26,21 +26,24 @@ BAND = 1e-9
 def hist_bins(d, edges, closed_right):
     """strict counts per bin plus list of (allowed bins) for distances inside the edge band.
     closed_right: bin i is (e[i-1], e[i]] with bin 0 = {d <= e[0]} (digitize right=True); else [e[i], e[i+1])"""
+    edges = np.asarray(edges, float)
     nb = len(edges) if closed_right else len(edges) - 1
-    strict = np.zeros(nb, dtype=int)
+    d = np.asarray(d, float).ravel()
+    if d.size == 0:
+        return np.zeros(nb, dtype=int), []
+    k = np.searchsorted(edges, d, side='left' if closed_right else 'right')
+    j = np.clip(np.searchsorted(edges, d), 1, len(edges) - 1)
+    j = np.where(np.abs(d - edges[j - 1]) <= np.abs(d - edges[j]), j - 1, j)  # nearest edge
+    near = np.abs(d - edges[j]) < BAND
+    b = k if closed_right else k - 1
+    ok = ~near & (b >= 0) & (b < nb)
+    strict = np.bincount(b[ok], minlength=nb).astype(int)
     amb = []
-    for x in np.asarray(d).ravel():
-        k = int(np.searchsorted(edges, x, side='left' if closed_right else 'right'))
-        near = [e for e in range(len(edges)) if abs(x - edges[e]) < BAND]
-        if closed_right:
-            cand = {k} if not near else {near[0], near[0] + 1}
-        else:
-            cand = {k - 1} if not near else {near[0] - 1, near[0]}
+    for e in j[near]:
+        e = int(e)
+        cand = {e, e + 1} if closed_right else {e - 1, e}
         cand = {c for c in cand if 0 <= c < nb}
-        if not near:
-            if 0 <= (k if closed_right else k - 1) < nb:
-                strict[k if closed_right else k - 1] += 1
-        elif cand:
+        if cand:
             amb.append(cand | {-1} if len(cand) < 2 else cand)  # -1: may also fall outside the histogram
     return strict, amb
 
@@ -74,16 +77,31 @@ def check_edges(x, res, max_dist, closed_right):
         raise Violation('bin-edges-cover-cut-off', f'last edge {top!r} for cut-off {max_dist!r}, resolution {res!r}')
 
 
+def expand(case):
+    """long runs are stored compactly: a short template system whose frames are repeated cyclically up to 'tile_to' frames"""
+    T = case.get('tile_to')
+    if not T:
+        return case
+    c = dict(case)
+    T0 = len(case['diff'])
+    idx = np.arange(T) % T0
+    c['diff'] = np.array(case['diff'], float)[idx]
+    if case.get('diff_shift') is not None:
+        c['diff_shift'] = np.array(case['diff_shift'], float)[idx]
+    c['framework'] = dict(case['framework'], coords=np.array(case['framework']['coords'], float)[idx])
+    return c
+
+
 def run_species(case):
     from gemdat.rdf import radial_distribution_between_species
+
+    case = expand(case)
 
     M = np.array(case['lattice']['matrix'])
     traj = sitesys.full_trajectory(case, species_kind=case.get('species_kind', 'Species'))
     cases.prelude(traj, case.get('prelude'))
-    diff = np.array(case['diff'])
-    fw = case['framework']
-    symbols = ['Li'] * diff.shape[1] + list(fw['symbols'])
-    coords = np.concatenate([diff, np.array(fw['coords'])], axis=1)
+    symbols, coords, _ = sitesys.atom_layout(case)
+    coords = coords - np.floor(coords)  # (periodic images of the input are irrelevant to the expected distances)
     T = coords.shape[0]
     res, mx = case['resolution'], case['max_dist']
     s1, s2 = case['specie_1'], case['specie_2']
@@ -127,7 +145,7 @@ def run_species(case):
     raw2 = y2 * (len(i1) / vol) * shell
     if np.abs(raw - raw2).max() > 1e-6:
         raise Violation('raw-pair-counts-symmetric', f'{s1}-{s2}: {np.rint(raw).tolist()} vs {np.rint(raw2).tolist()}')
-    labels = [case['lattice']['family']]
+    labels = [case['lattice']['family']] + ([f'frames>{1000 * (T // 1000)}' if T % 1000 else 'frames-multiple-of-1000'] if T >= 900 else [])
     if via_image:
         labels.append('pair-through-periodic-image')
     if amb:
@@ -136,6 +154,7 @@ def run_species(case):
 
 
 def run_states(case):
+    case = expand(case)
     M = np.array(case['lattice']['matrix'])
     want, _ = sitesys.expected_states(case)
     if (want == -2).any() or not (want[1:] != want[:-1]).any():
@@ -156,10 +175,9 @@ def run_states(case):
     for obj in (traj, tr.trajectory, tr.diff_trajectory):  # read-only queries between building the transitions and asking for the RDFs
         cases.prelude(obj, case.get('prelude'))
     rdfs = gcall(tr.radial_distribution, floating_specie='Li', max_dist=mx, resolution=res)
-    diff = np.array(case['diff'])
-    fw = case['framework']
-    symbols = ['Li'] * diff.shape[1] + list(fw['symbols'])
-    coords = np.concatenate([diff, np.array(fw['coords'])], axis=1)
+    symbols, coords, dcols = sitesys.atom_layout(case)
+    coords = coords - np.floor(coords)
+    diff = coords[:, dcols]
     T, Nd = states.shape
     prev, nxt = oracle.ffill_model(states), oracle.bfill_model(states)
     # all returned x arrays identical and well formed
@@ -222,7 +240,7 @@ def run_states(case):
                     compare_hist(g, alt, amb, kind, where)
             else:
                 compare_hist(g, strict, amb, kind, where)
-    labels = [case['lattice']['family']]
+    labels = [case['lattice']['family']] + (['interleaved-atom-order'] if dcols != list(range(Nd)) else [])
     if any(c.startswith('@') for c in exp):
         labels.append('at-site-frames')
     if any('->' in c for c in exp):
@@ -245,6 +263,7 @@ def _rdf_params(draw, c):
 def species_cases(draw, tier):
     c = draw(gen.hop_systems(tier=tier, framework=True, max_frames=6 if tier == 'quick' else 15, max_diff=3))
     _rdf_params(draw, c)
+    c['merge'] = draw(st.one_of(st.none(), st.lists(st.integers(0, 1), min_size=1, max_size=6)))  # atom order: diffusers first, or interleaved with the other species
     kinds = sorted(set(['Li'] + c['framework']['symbols']))
     pick = st.one_of(st.sampled_from(kinds), st.lists(st.sampled_from(kinds), min_size=1, max_size=2, unique=True))
     c['specie_1'], c['specie_2'] = draw(pick), draw(pick)
@@ -256,8 +275,27 @@ def species_cases(draw, tier):
 def state_cases(draw, tier):
     c = draw(gen.hop_systems(tier=tier, framework=True, min_sites=2, max_sites=5, max_frames=10 if tier == 'quick' else 25, max_diff=3, radius_modes=('float',), min_labels=2))
     c['decoy'] = draw(st.booleans())
+    c['merge'] = draw(st.one_of(st.none(), st.lists(st.integers(0, 1), min_size=1, max_size=6)))
     c['species_kind'] = draw(st.sampled_from(['Species', 'Element', 'Species-mixed', 'Species-mixed']))
     return _rdf_params(draw, c)
+
+
+LONG_T = [999, 1000, 1001, 1024, 1300, 1999, 2000, 2001, 2500, 3000, 4096, 4097]
+
+
+@st.composite
+def long_species_cases(draw, tier):
+    c = draw(species_cases(tier))
+    c['tile_to'] = draw(st.sampled_from(LONG_T + ([8193, 10001] if tier == 'thorough' else [])))
+    return c
+
+
+@st.composite
+def long_state_cases(draw, tier):
+    c = draw(state_cases(tier))
+    c['tile_to'] = draw(st.sampled_from(LONG_T))
+    c['decoy'] = False
+    return c
 
 
 SUBS = [
@@ -267,4 +305,10 @@ SUBS = [
     Sub(name='per-state', kind='hyp', run=run_states, strategy=state_cases,
         rule='per-state RDFs from a real Transitions object: every (frame, diffuser, atom) pair within the cut-off in exactly one (state class, bin); "@L" only frames at a site labelled L, "X->Y" only frames between X and Y',
         n={'quick': 100, 'thorough': 2000}, shards={'quick': 8, 'thorough': 16}),
+    Sub(name='long-runs-between-species', kind='hyp', run=run_species, strategy=long_species_cases,
+        rule='the between-species systems repeated cyclically to 999 - 4097 (10 001) frames (round numbers and their neighbours): same clauses on runs longer than any internal block size',
+        n={'quick': 5, 'thorough': 40}, shards={'quick': 6, 'thorough': 16}),
+    Sub(name='long-runs-per-state', kind='hyp', run=run_states, strategy=long_state_cases,
+        rule='the per-state systems repeated cyclically to 999 - 4097 frames: same partition clauses on long runs',
+        n={'quick': 3, 'thorough': 25}, shards={'quick': 6, 'thorough': 16}),
 ]
